@@ -991,6 +991,7 @@ def sepCompat (gs : Sep) (trim : Bool) (ss : Sep) : Bool :=
   | .comma, .comma => trim
   | .space, .space => true
   | .ws, .space => true
+  | .ws, .nl => true
   | .nl, .nl => true
   | .lines, .nl => true
   | _, _ => false
